@@ -171,6 +171,7 @@ class Runner(object):
                     got = [self.idx_of(r) for r in xtuml.navigate_many(live[k]).nav(b['tgt'], a['rel'])()]
                     if got != want:
                         self.fail('navigation-across-association-class', 'R%d from #%d to %s: got %r want %r' % (a['rel'], k, b['tgt'], got, want))
+        self.observe_subtypes(st, live)
         for a in self.schema.assocs:
             fwd, bwd = {}, {}
             for k in st['instances'][self.schema.cls(a['src'])['name']]:
@@ -185,6 +186,27 @@ class Runner(object):
                     bwd[k] = ks
             st['links'].append({'fwd': fwd, 'bwd': bwd})
         return st, live
+
+    def observe_subtypes(self, st, live):
+        """navigate_subtype of every supertype instance: the one related subtype instance, or nothing"""
+        groups = {}
+        for i, a in enumerate(self.schema.assocs):
+            if a.get('shape') == 'subsuper':
+                groups.setdefault((a['rel'], a['tgt']), []).append(i)
+        for (rel, sup), idxs in sorted(groups.items()):
+            for k in st['instances'][self.schema.cls(sup)['name']]:
+                subs = []
+                for i in idxs:
+                    subs += [p.idx for p in self.sh.partners(i, self.sh.recs[k], False)]
+                if len(subs) > 1:
+                    continue            # which one is not stated
+                try:
+                    g = xtuml.navigate_subtype(live[k], rel)
+                except Exception as e:
+                    self.fail('navigate-subtype-exception:' + exc_bucket(e), repr(e))
+                got = None if g is None else self.idx_of(g)
+                if got != (subs[0] if subs else None):
+                    self.fail('navigate-subtype-wrong', 'R%d from #%d: got %r want %r' % (rel, k, got, subs[0] if subs else None))
 
     def compare(self, after_reject=None):
         if not self.checking:
